@@ -306,7 +306,7 @@ fn main() {
     let rep = Reporter::new("C02", "exploration", &args);
     let thorough = args.tier == Tier::Thorough;
     // part (b): loom exploration of the reply slot runs concurrently in its own process
-    let loom_out = vh::report::verif_root().join("evidence").join("C02-loom.part.json");
+    let loom_out = vh::report::verif_root().join("replays").join("C02-loom.part.json");
     let _ = std::fs::create_dir_all(loom_out.parent().unwrap());
     let _ = std::fs::remove_file(&loom_out);
     let loom_child = std::process::Command::new(vh::report::verif_root().join("loomcheck").join("run.sh"))
